@@ -1,7 +1,6 @@
 from collections import OrderedDict
 from copy import deepcopy
 from importlib import import_module
-from itertools import zip_longest
 
 import regex as re
 
@@ -191,10 +190,11 @@ class LocaleDataLoader:
             if region is None:
                 region = ""
             locales = _construct_locales(languages, region)
+            # pair every constructed locale with its own language: languages
+            # whose regional locale does not exist have been filtered out above
             locale_dict.update(
-                zip_longest(
-                    locales, tuple(zip_longest(languages, [], fillvalue=region))
-                )
+                (locale, (LOCALE_SPLIT_PATTERN.split(locale)[0], region))
+                for locale in locales
             )
 
         if not use_given_order:
